@@ -282,13 +282,18 @@ def run_property(prop, tier, seed, replay=None):
             continue
         nfail, nrun = 0, 0
         last = ''
-        for _ in range(3):
+        for _ in range(5 if (s.kind == 'stress' or f.get('class', '').startswith('concurrent')) else 3):
             fails, out = replay_once(bins[s.harness], pid, tier, seed, path, extra_env={k: (str(v[tix]) if isinstance(v, (tuple, list)) else str(v)) for k, v in s.env.items()})
             nrun += 1
             if fails:
                 nfail += 1
                 last = out
-        need = 3 if s.kind != 'stress' else 1
+                if nfail >= (1 if (s.kind == 'stress' or f.get('class', '').startswith('concurrent')) else 3):
+                    break
+        # deterministic engines must fail 3/3; findings that depend on real concurrency (stress sub-checks, and failure classes
+        # the harness marks as 'concurrent…') must reproduce at least once
+        racy = s.kind == 'stress' or f.get('class', '').startswith('concurrent')
+        need = 1 if racy else 3
         if nfail >= need:
             v2 = verdict
             got = False
@@ -310,7 +315,7 @@ def run_property(prop, tier, seed, replay=None):
                 pass
             violations.append((skey or finding_key_from_verdict(v2), v2, path))
         else:
-            notes.append('candidate failure from %s did not reproduce %d/3 from its replay file (%s): unreproduced, not reported' % (s.name, nfail, path))
+            notes.append('candidate failure from %s did not reproduce (%d failing replays) from its replay file (%s): unreproduced, not reported' % (s.name, nfail, path))
             merged['counters']['unreproduced_candidates'] = merged['counters'].get('unreproduced_candidates', 0) + 1
 
     # 5. classify violations against the known-findings file
